@@ -165,7 +165,7 @@ Lemma s_step_inv (s : sstate) (S : list N) (ev : sevent) :
   exists s', s_step cs s ev = Ok s' /\ sinv s' (ev_subs ev S).
 Proof.
   intros (Hq & Hwire & Hsub & Huniq & Hsound & Hcount & Hdown) Hfresh.
-  destruct ev as [c qs multi bad x0|m|err]; cbn [s_step ev_subs ev_fresh] in *.
+  destruct ev as [c qs multi bad x0|m|err|]; cbn [s_step ev_subs ev_fresh] in *.
   - (* submit *)
     assert (Hsub' : forall c0 i qs0, In (c0, i, qs0) (st_sent s) -> In c0 (c :: S)) by (intros; right; eauto).
     assert (Hcnt_err : forall e0 c0, pending c0 (st_q s) + tcount c0 (st_log s ++ [(c, multi, DError e0)]) = inb c0 (c :: S)).
@@ -283,6 +283,16 @@ Proof.
       apply in_map_iff in H. destruct H as (e & He & _). discriminate. }
     split; [|intros _ c0; reflexivity].
     intros c0. rewrite tcount_app, tcount_drained. specialize (Hcount c0). unfold pending in *. cbn [q_vec wsum]. lia.
+  - (* the idle timeout expires *)
+    destruct (st_conn s) eqn:Econn.
+    2:{ exists s. split; [reflexivity|]. unfold sinv. rewrite Econn. split; [exact Hq|]. split; [exact Hwire|]. split; [exact Hsub|]. split; [exact Huniq|].
+        split; [exact Hsound|]. split; [exact Hcount|]. exact Hdown. }
+    destruct (st_idle s) eqn:Ei.
+    + eexists. split; [reflexivity|]. unfold sinv. cbn [st_q st_conn st_sent st_log st_idle].
+      split; [exact Hq|]. split; [exact Hwire|]. split; [exact Hsub|]. split; [exact Huniq|].
+      split; [exact Hsound|]. split; [exact Hcount|]. intros _. apply Hdown. right. reflexivity.
+    + exists s. split; [reflexivity|]. unfold sinv. rewrite Econn, Ei. split; [exact Hq|]. split; [exact Hwire|]. split; [exact Hsub|]. split; [exact Huniq|].
+      split; [exact Hsound|]. split; [exact Hcount|]. exact Hdown.
 Qed.
 End Step.
 
